@@ -702,9 +702,30 @@ def lookup(run, model, rule="C06.lookup"):
                 apps.append((n, strip_sites(t[2][0])))
     kinds = []
     apps.sort(key=lambda x: x[0].lineno)
+    unrestricted = None
+
+    def restricted_args(n):
+        """the table appended at ``n`` is {k: v for k, v in resolved_kwargs.items() if k in signature(condition).parameters}"""
+        cands = [arg for call, c_, a_ in calls_in(n) for arg in call.args] if n is not None else [x for x in ast.walk(fi.node) if isinstance(x, ast.DictComp)]
+        n = n if n is not None else [x for x in flow.cfg.nodes if x.kind in ("stmt", "return") and x.ast is not None][0]
+        if True:
+            for arg in cands:
+                if isinstance(arg, ast.DictComp) and len(arg.generators) == 1 and len(arg.generators[0].ifs) == 1:
+                    g = arg.generators[0]
+                    it = strip_sites(flow.term(g.iter, n))
+                    cond = g.ifs[0]
+                    if it == ("call", ("attr", ("param", "resolved_kwargs"), "items"), (), ()) and isinstance(g.target, ast.Tuple) and len(g.target.elts) == 2 and all(isinstance(x, ast.Name) for x in g.target.elts) and isinstance(arg.key, ast.Name) and arg.key.id == g.target.elts[0].id and isinstance(arg.value, ast.Name) and arg.value.id == g.target.elts[1].id and isinstance(cond, ast.Compare) and len(cond.ops) == 1 and isinstance(cond.ops[0], ast.In) and isinstance(cond.left, ast.Name) and cond.left.id == g.target.elts[0].id:
+                        ct = strip_sites(flow.term(cond.comparators[0], n))
+                        if any(s_[0] == "attr" and s_[2] == "parameters" and s_[1][0] == "call" and s_[1][1] == ("attr", ("module", "inspect"), "signature") and ("param", "condition") in (list(s_[1][2]) + [v_ for _, v_ in s_[1][3]]) for s_ in subterms(ct)) and not any(s_[0] == "phi" for s_ in subterms(ct)):
+                            return True
+        return False
+
     for n, a in apps:
         s = show(a)
         if a == ("param", "resolved_kwargs"):
+            kinds.append("arguments")
+            unrestricted = n
+        elif a[0] == "comp" and restricted_args(n):
             kinds.append("arguments")
         elif a[0] == "display" and a[1] == "dict" or "dict()" in s:
             kinds.append("closure")
@@ -740,6 +761,9 @@ def lookup(run, model, rule="C06.lookup"):
                 s = show(a)
                 if a == ("param", "resolved_kwargs"):
                     kinds.append("arguments")
+                    unrestricted = [n_ for n_ in flow.cfg.nodes if n_.kind == "return"][0]
+                elif a[0] == "comp" and restricted_args(None):
+                    kinds.append("arguments")
                 elif a[0] == "display" and a[1] == "dict" or "dict()" in s:
                     kinds.append("closure")
                 elif "__globals__" in s:
@@ -747,6 +771,9 @@ def lookup(run, model, rule="C06.lookup"):
                 else:
                     kinds.append(s)
     run.check(kinds == ["arguments", "closure", "globals"] and ordered, rule, fi.qual, "lookup tables are appended in the order arguments, closure, globals", "the lookup tables are appended as %s" % kinds, fi.loc())
+    # the arguments of the call bind the *parameters of the condition* only: any other name of the condition is a
+    # closure variable or a global, whatever the decorated function's other arguments are called
+    run.check(unrestricted is None, rule, fi.qual + ":parameters-only", "only the condition's own parameters are looked up among the arguments of the call", "all arguments of the call are offered as bindings for the names of the condition: a closure variable or global of the condition that is named like another argument of the function is shown (and sub-expressions are re-computed) with the argument's value, not with the value the condition saw", fi.loc(unrestricted) if unrestricted is not None else fi.loc(), None, first_line(unrestricted.stmt) if unrestricted is not None else None)
     # closure cells are read at the time of the violation (no caching across calls)
     src = src_of(fi.node)
     run.check("cell_contents" in src and "co_freevars" in src, rule, fi.qual + ":closure", "closure values are read from the cells of the condition at the time of the violation", "closure values are not read from the condition's cells", fi.loc())
